@@ -327,8 +327,11 @@ func (optEngine) Run(ctx *fw.Ctx, cs any) {
 			} else {
 				sb.WriteString("server4:\n  listen: '127.0.0.1:6767'\n  plugins:\n")
 			}
+			// every spelling YAML has for the same words (quotes of both kinds, escaped tabs and line breaks,
+			// literal and folded block scalars, bare numbers); the same spelling in both runs
+			yr := rand.New(rand.NewSource(c.Seed ^ 0x59414d4c))
 			for _, p := range chain {
-				fmt.Fprintf(&sb, "    - %s: '%s'\n", p.Name, strings.Join(p.Args, " "))
+				sb.WriteString(model.RenderPluginItem(yr, "    ", p.Name, p.Args))
 			}
 			j.YAML = sb.String()
 		}
